@@ -40,6 +40,8 @@ func registerArchiveModels(e *Engine) {
 		e.ghostSet(c.st, "tarClosed", BoolS, l, False)
 		e.ghostSet(c.st, "entries", IntS, l, IntT(0))
 		e.ghostSet(c.st, "tarBytes", IntS, l, IntT(0))
+		e.ghostSet(c.st, "tarStream", StringS, l, StrT(""))
+		e.ghostSet(c.st, "tarManifest", StringS, l, StrT(""))
 		return l
 	}
 	m["(*archive/tar.Writer).WriteHeader"] = func(c *CallCtx) *Term {
@@ -65,6 +67,11 @@ func registerArchiveModels(e *Engine) {
 			z := uf("zeros", StringS, pad)
 			e.axiom(Eq(StrLen(z), pad))
 			werr = e.pushDown(s, l, Concat(z, blk))
+			e.ghostSet(s.st, "tarStream", StringS, l, Concat(e.ghostGet(s.st, "tarStream", StringS, l), z, blk))
+			// logical content of the archive: per entry an (injective, self-delimiting)
+			// description of the header followed by the body bytes
+			e.ghostSet(s.st, "tarManifest", StringS, l, Concat(e.ghostGet(s.st, "tarManifest", StringS, l),
+				uf("tarHead", StringS, hv("Name"), hv("Mode"), size, typeflag, hv("Linkname"), hv("Uname"), hv("Gname"), hv("ModTime"))))
 			// only regular files carry a body
 			isReg := Or(Eq(typeflag, IntT('0')), Eq(typeflag, IntT(0)))
 			bodySize := Ite(isReg, size, IntT(0))
@@ -91,6 +98,8 @@ func registerArchiveModels(e *Engine) {
 		e.guarded(c, Not(bad), func(s *CallCtx) {
 			data := StrSubstr(p, IntT(0), n)
 			werr = e.pushDown(s, l, data)
+			e.ghostSet(s.st, "tarStream", StringS, l, Concat(e.ghostGet(s.st, "tarStream", StringS, l), data))
+			e.ghostSet(s.st, "tarManifest", StringS, l, Concat(e.ghostGet(s.st, "tarManifest", StringS, l), data))
 			e.ghostSet(s.st, "tarRemaining", IntS, l, Sub(rem, n))
 			e.ghostSet(s.st, "lastBody", StringS, l, Concat(e.ghostGet(s.st, "lastBody", StringS, l), data))
 			e.ghostSet(s.st, "entries", IntS, l, uf("tbody", IntS, e.ghostGet(s.st, "entries", IntS, l), data))
@@ -112,7 +121,13 @@ func registerArchiveModels(e *Engine) {
 			pad := e.ghostGet(s.st, "tarPad", IntS, l)
 			z := uf("zeros", StringS, Add(pad, IntT(1024)))
 			e.axiom(Eq(StrLen(z), Add(pad, IntT(1024))))
+			// what the archive consisted of when it was closed (ghost, for the
+			// segment contracts of the apk writer)
+			e.globSet(s.st, "tarStreamAtClose", StringS, e.ghostGet(s.st, "tarStream", StringS, l))
+			e.globSet(s.st, "tarPadAtClose", IntS, pad)
+			e.globSet(s.st, "tarManifestAtClose", StringS, e.ghostGet(s.st, "tarManifest", StringS, l))
 			werr = e.pushDown(s, l, z)
+			e.ghostSet(s.st, "tarStream", StringS, l, Concat(e.ghostGet(s.st, "tarStream", StringS, l), z))
 			e.ghostSet(s.st, "tarPad", IntS, l, IntT(0))
 			e.ghostSet(s.st, "tarBytes", IntS, l, Add(e.ghostGet(s.st, "tarBytes", IntS, l), Add(pad, IntT(1024))))
 			e.ghostSet(s.st, "tarClosed", BoolS, l, Eq(werr, NilIface))
@@ -143,6 +158,25 @@ func registerArchiveModels(e *Engine) {
 		e.setField(c.st, HT, h, "Linkname", Ite(isLink, c.args[1], StrT("")))
 		sock := And(special, Fresh("fih.sock", BoolS))
 		return c.ret(Ite(sock, NilLoc, h), Ite(sock, e.libErr("tar:socket"), NilIface))
+	}
+	// a tar builder supplied by the caller (apk.writeTgz): writes an arbitrary
+	// sequence of complete entries, or fails.  archive/tar keeps
+	// (bytes emitted + pending padding) a multiple of 512 between entries.
+	m["funcval:P:apk.writeTgz.builder"] = func(c *CallCtx) *Term {
+		l := c.args[0]
+		fails := c.nondet("builder")
+		c.setFailed(False)
+		data := Fresh("built", StringS)
+		pad := Fresh("builtPad", IntS)
+		c.axiom(And(Le(IntT(0), pad), Lt(pad, IntT(512))))
+		c.axiom(Eq(ModE(Add(StrLen(data), pad), IntT(512)), IntT(0)))
+		var werr *Term = NilIface
+		werr = e.pushDown(c, l, data)
+		e.ghostSet(c.st, "tarStream", StringS, l, Concat(e.ghostGet(c.st, "tarStream", StringS, l), data))
+		e.ghostSet(c.st, "tarPad", IntS, l, pad)
+		e.ghostSet(c.st, "tarRemaining", IntS, l, IntT(0))
+		e.ghostSet(c.st, "tarBytes", IntS, l, Add(e.ghostGet(c.st, "tarBytes", IntS, l), StrLen(data)))
+		return Ite(fails, e.libErr("builder"), werr)
 	}
 	// ---------------- compressors ----------------
 	newComp := func(kind string, fallible bool) ModelFn {
@@ -187,6 +221,7 @@ func registerArchiveModels(e *Engine) {
 		var werr *Term = NilIface
 		e.guarded(c, Not(skip), func(s *CallCtx) {
 			acc := e.ghostGet(s.st, "accepted", StringS, l)
+			e.globSet(s.st, "compressedInput", StringS, acc)
 			werr = e.pushDown(s, l, uf("ztail", StringS, e.ghostGet(s.st, "zkind", StringS, l), acc))
 			e.ghostSet(s.st, "zclosed", BoolS, l, True)
 		})
